@@ -11,3 +11,30 @@ CLAIMS['C05'] = dict(
          'configuration cannot reach CBC without a MAC, HMAC keys < 16 bytes throw, a fresh CBC object gets a random IV. Holds for all inputs because it is a path property; '
          'it is a necessary condition of authenticity, not a proof of cryptographic strength.',
     note='Trusted: clang front end, the extractor, the non-mutating-accessor table of vlib/q.py. Not decided: cryptographic strength of HMAC/AES, byte-exact save/load round trip, base64 canonical form.')
+
+CLAIMS['C07'] = dict(
+    category='other',
+    technique='static analysis: pairing / cut-set domination on the clang CFG, who-may-call, loop-shape rules',
+    text='Decides on every path of both mem_cache<Setup> instantiations and of cache_interface the structural necessary conditions of "never returns invalidated, '
+         'expired or superseded data": delete_node unlinks from lru, timeout, every trigger list (dropping emptied lists only when empty) and primary, and is the only eraser; '
+         'store deletes an existing entry of the same key before the single insert and links the new one everywhere; the key is always one of its own triggers and every supplied '
+         'trigger is added; fetch hands out data only past find!=end and the not-expired comparison with time(); rise deletes from a private copy; cache_interface re-adds fetched '
+         'triggers, records key and triggers on store/store_page and notifies recorders.',
+    note='Trusted: clang front end, extractor, the non-mutating accessor table. Not decided: correctness of hash_map / std containers, "most recent store wins" as a history property, shared-memory allocator.')
+
+CLAIMS['C08'] = dict(
+    category='other',
+    technique='static analysis: CFG domination + linear guard implication (DNF of the loop-exit condition, Fourier-Motzkin)',
+    text='Proves that check_limits() precedes the only insertion with no size change in between, and that the negated eviction-loop condition implies size+1 <= limit whenever limit>0 '
+         '(every disjunct of the exit condition, Fourier-Motzkin; an off-by-one such as > for >= fails the proof); expired entries are chosen before LRU ones, the LRU victim comes from '
+         'the end opposite to where store/fetch insert, every hit moves the entry; size / triggers_count change exactly with membership; bad_alloc while linking clears the cache.',
+    note='Assumes the invariant lru.empty() => size==0 for the break exit (stated in the evidence; it follows from C07.R1/R2). Not decided: buddy allocator behaviour, memory actually released, process-shared memory pressure branch (treated as opaque).')
+
+CLAIMS['C09'] = dict(
+    category='proof',
+    technique='static analysis: flow-sensitive lockset dataflow over the clang CFG with inter-procedural requirement propagation',
+    text='Lock-discipline proof for both instantiations of mem_cache<Setup>: every read/write of guarded state (8 members + 5 per-entry fields, frozen guarded-by table) is under access_lock in the '
+         'required mode on every CFG path including exception edges; LRU state additionally allows shared access_lock + lru_mutex; helpers requiring the exclusive lock are checked at every call site; '
+         'fetch writes nothing but LRU state; the RAII guard classes and the pthread / fcntl primitives they reach acquire in the mode the table assumes. This holds for every schedule. '
+         'Linearizability is argued from the discipline (each operation acts inside one critical section of a readers-writer lock) and is not machine-checked.',
+    note='Trusted: the guarded-by table (rules/C09.py), guard API table (vlib/lockset.py), pthread rwlock/mutex semantics, the documented configuration-time use of set_size and the constructor.')
